@@ -4,12 +4,16 @@ from .. import roles
 from ..terms import callee, canon, const, is_const, show, walk, NONE
 
 
-def roles_rule(ctx, rule, quals, with_return=True, skip_kinds=(), only_kinds=None):
+def roles_rule(ctx, rule, quals, with_return=True, skip_kinds=(), only_kinds=None, require=None):
+    """require: {function: [set of sink kinds, ...]} - see roles.check_paths"""
     n = 0
     for qn in quals:
         paths = ctx.paths(qn)
         ret = roles.RETURNS.get(qn) if with_return else None
-        n += roles.check_paths(ctx, rule, qn, paths, ret, skip_kinds=skip_kinds, only_kinds=only_kinds)
+        req = list((require or {}).get(qn, ()))
+        if ret is not None:
+            req.append({"return"})
+        n += roles.check_paths(ctx, rule, qn, paths, ret, skip_kinds=skip_kinds, only_kinds=only_kinds, require=req)
     return n
 
 
